@@ -81,12 +81,22 @@ def stepR (C : Cfg) (src : Array UInt8) (st : St) : Res :=
       if over C.P (op1 + ll + (2 + 1 + LZ4V.Gen.LASTLITERALS) + ll / 255) then .fail else
       emitMatchR C src { st with tbl := tbl } c.1 c.2 (op1 + extLen ll + ll) st.anchor ll
 
+/-- the table at the moment a step gives up (`return 0` of `limitedOutput`): the insertions of the search that preceded it are in ("Stored indexes in
+    hash table are nonetheless fine"); the table outlives the failed call (lz4frame.c goes on using the stream after storing the block raw) -/
+def failTbl (C : Cfg) (src : Array UInt8) (st : St) : Array Nat :=
+  match st.pending with
+  | some _ => st.tbl
+  | none =>
+    match searchR C src (src.size - LZ4V.Gen.MFLIMIT + 1) (src.size + 1) st.ip 1 (C.P.accel <<< LZ4V.Gen.LZ4_skipTrigger) st.tbl with
+    | some (_, _, tbl) => tbl
+    | none => st.tbl
+
 /-- the main loop; returns the table as well (it survives the call, also when the call gives up) -/
 def runR (C : Cfg) (src : Array UInt8) : Nat → St → List PSeq → Option (List PSeq × St) × Array Nat
   | 0, st, acc => (some (acc.reverse, st), st.tbl)
   | fuel+1, st, acc =>
     match stepR C src st with
-    | .fail => (none, st.tbl)
+    | .fail => (none, failTbl C src st)
     | .last st' => (some (acc.reverse, st'), st'.tbl)
     | .seq s st' => runR C src fuel st' (s :: acc)
 
